@@ -35,7 +35,7 @@ TickEnv ==
         /\ node[n].alive
         /\ (adv = "j") => (n \in Electors /\ node[n].term < MaxTerm /\ node[n].role # "L")
         /\ (adv = "m") => node[n].role = "L"
-        /\ Tick(n, adv, DefaultCut, [sid |-> ToString(<<node[n].applied, node[n].term, Len(node[n].hist)>>), size |-> SnapSize], <<>>)
+        /\ Tick(n, adv, DefaultCut, [sid |-> ToString(<<node[n].applied, node[n].term, Len(node[n].hist)>>), size |-> SnapSize], <<>>, TRUE)
         /\ UNCHANGED <<unused, faults>> /\ lastTick' = n
 
 OtherEnv ==
